@@ -184,5 +184,8 @@ def run(ctx, rep):
     loopstate.rule(ctx, rep, "C09", ['validation::check_methods'])
     import pipeline
     pipeline.rule(ctx, rep, "C09", ['check_methods'])
+    rep.rule("LX", "lexical agreement (C03 A10, re-evaluated here): the property quantifies over documents - token classes, their priorities, the keyword rule, comments and white space must be the reference ones (a changed comment / number / keyword regex silently drops or merges members)")
+    import lexical
+    lexical.rules(ctx, rep, "C09", {"trivia", "classes", "priority", "keywords", "tokenizer"})
     rep.assumptions += ["TB-1 rustc MIR", "TB-4 tabulator", "TB-3 HashMap get/insert/entry semantics (the abstract predicates 'name seen' / 'code seen' are the map's own answers)"]
     rep.not_decided.append("u32 parsing of zero-padded / overflowing codes (std; wiring of transact_code is the grammar rule)")
